@@ -44,6 +44,7 @@ func checkErrorShapes(c *core.Ctx, src []byte, ver string, errs []*errors.Error)
 	lines := obs.NewLines(src)
 	lastStart := -1
 	lastMsg := ""
+	sawEnd := false
 	for i, e := range errs {
 		if e == nil {
 			c.Violation("errshape|nil-error|"+fam, fmt.Sprintf("error #%d delivered to the callback is nil", i), w)
@@ -57,7 +58,16 @@ func checkErrorShapes(c *core.Ctx, src []byte, ver string, errs []*errors.Error)
 		p := e.Pos
 		if p == nil {
 			c.Add("errors_without_position(end of input)", 1)
+			sawEnd = true
 			continue
+		}
+		if sawEnd {
+			cls := "syntax"
+			if !strings.HasPrefix(e.Msg, "syntax error") && !strings.HasPrefix(e.Msg, "WARNING") {
+				cls = "semantic:" + numStrip(e.Msg)
+			}
+			c.Violation("errshape|order|after-end-of-input|"+cls+"|"+fam, fmt.Sprintf("error %q at offset %d is delivered after the error that has no position (end of input)", e.Msg, p.StartPos), w)
+			return false
 		}
 		sig := errSig(e)
 		if p.StartPos < 0 || p.EndPos < p.StartPos || p.EndPos > len(src) {
@@ -410,6 +420,42 @@ func c06Delete(c *core.Ctx, idx int) {
 	c.NonTrivial([]byte(pc.root.Canon()), []byte(pc.ver), []byte("del"))
 }
 
+// c06FlexOld: a program with a flexible heredoc terminator (indented closing label, or code behind it on the same
+// line) is not a valid program for any version below 7.3 — of either family: the heredoc is not closed there.
+func c06FlexOld(c *core.Ctx, idx int) {
+	r := core.NewRand(c.P.Seed, "C06flex", idx)
+	fam := []int{5, 7}[r.Intn(2)]
+	var root *gen.Node
+	for try := 0; try < 40; try++ {
+		g := gen.NewG(r.Split(fmt.Sprint("p", try)), gen.Opts{Fam: fam, Flex73: true, NoHTML: true, MaxDepth: r.Range(2, 4), MaxStmts: 5})
+		root = g.Program()
+		if root.HasFlag(gen.FFlex73) {
+			break
+		}
+		root = nil
+	}
+	if root == nil {
+		c.Inconclusive("no program with a flexible heredoc found")
+		return
+	}
+	ver := r.Pick("7.0", "7.1", "7.2")
+	if fam == 5 {
+		ver = r.Pick("5.0", "5.2", "5.3", "5.4", "5.5", "5.6")
+	}
+	src := gen.Render(root.Tokens(), []int{gen.LayCanon, gen.LayLF, gen.LayCRLF, gen.LayMixed}[r.Intn(4)], r.Split("lay"), nil)
+	nerr, _ := c06Input(c, src, ver)
+	c.Add("broken_programs_parsed", 1)
+	c.Cover("edits", "flexible-heredoc-under-old-version")
+	if nerr == 0 {
+		if pr := obs.Parse(src, ver, true); pr.Panic != nil {
+			return
+		}
+		c.Violation(fmt.Sprintf("swallowed|fam%d|flexible-heredoc-under-old-version", fam), fmt.Sprintf("a program with a flexible heredoc terminator was parsed under %s without any error", ver), core.W(src, ver))
+		return
+	}
+	c.NonTrivial(src, []byte(ver))
+}
+
 // c06Deep: nesting depth as the hostile dimension. One nesting construct (brackets of every kind, blocks,
 // ifs, calls, closures, ternaries, prefix-operator and assignment chains) is nested n deep, n drawn from
 // round numbers, powers of two and their neighbours up to 70 000 — the sizes at which a parser stack, a
@@ -505,6 +551,10 @@ func init() {
 			}
 			if idx%100 == 7 {
 				c06Deep(c, idx)
+				return
+			}
+			if idx%50 == 11 {
+				c06FlexOld(c, idx)
 				return
 			}
 			if idx%2 == 0 {
